@@ -16,6 +16,19 @@ already been queried.  Nothing here imports partitura at module level.
   ["e+", kind, s, e, id]     add a note ("n"; first and last grid cell), grace note ("g"; last onset) or rest ("r"; first cell)
   ["e-", id]                 remove a note / grace note / rest that is not part of a tie chain (first and last of each)
   ["q=", q]                  replace the only quarter duration (set at 0) by q
+
+Tie alphabet (spaces part-edit-ties*): edits of tie chains that were already queried.  Tie links are set the way
+the importers set them (tie_next / tie_prev attributes); a chain never gets a gap (the end of a member is the start
+of the next one), so that its timeline duration is unambiguous.
+
+  ["c>", id, end]            move the end of the last note of a chain to `end` (remove(o, "end") + add(o, None, end))
+  ["c|", a, b, t]            move the boundary between two adjacent members a -> b of a chain to t
+  ["c-", id]                 remove the last note of a chain (unlink it, then Part.remove)
+  ["c/", a]                  untie a from the note it is tied to (two rows afterwards)
+  ["c+", id, new, end]       add a note of the same spelled pitch from the end of note `id` to `end` and tie it on
+  ["c~", a, b]               tie note a to note b (same spelled pitch, b starts where a ends, no link there yet)
+  ["x*", m]                  rescale the part in place: remove every object, multiply the (only) quarter duration
+                             by m, add the same objects again at m times their start and end times
 """
 
 KS_ADD = (-4, "minor")
@@ -77,9 +90,46 @@ def apply_edit_spec(spec, e):
     elif k == "q=":
         assert len(sp["divs"]) == 1
         sp["divs"] = [[0, e[1]]]
+    elif k == "c>":
+        _by_id(objs, e[1])["e"] = e[2]
+    elif k == "c|":
+        _by_id(objs, e[1])["e"] = e[3]
+        _by_id(objs, e[2])["s"] = e[3]
+    elif k == "c-":
+        objs[:] = [o for o in objs if o.get("id") != e[1]]
+        for o in objs:
+            if o.get("tie") == e[1]:
+                o["tie"] = None
+    elif k == "c/":
+        _by_id(objs, e[1])["tie"] = None
+    elif k == "c+":
+        a = _by_id(objs, e[1])
+        objs.append(dict(k="note", s=a["e"], e=e[3], id=e[2], step=a["step"], oct=a["oct"], alter=a.get("alter"),
+                         voice=3, staff=3))
+        a["tie"] = e[2]
+    elif k == "c~":
+        _by_id(objs, e[1])["tie"] = e[2]
+    elif k == "x*":
+        assert len(sp["divs"]) == 1
+        m = e[1]
+        sp["divs"] = [[0, sp["divs"][0][1] * m]]
+        for o in objs:
+            for x in ("s", "e"):
+                if o.get(x) is not None:
+                    o[x] = o[x] * m
     else:
         raise ValueError(e)
     return sp
+
+
+def _by_id(objs, oid):
+    (o,) = [x for x in objs if x.get("id") == oid and x["k"] in ("note", "grace", "rest")]
+    return o
+
+
+def grid_after(grid, e):
+    """the time grid of the frame after edit e (only the in-place rescaling moves it)"""
+    return [t * e[1] for t in grid] if e[0] == "x*" else list(grid)
 
 
 def apply_edit_real(part, e):
@@ -148,6 +198,58 @@ def apply_edit_real(part, e):
     if k == "q=":
         part.set_quarter_duration(0, e[1])
         return 1
+
+    def note(oid):
+        found = [o for o in part.iter_all(S.GenericNote, include_subclasses=True) if o.id == oid]
+        if len(found) != 1:
+            raise AssertionError("edit %r: %d candidates for %s" % (e, len(found), oid))
+        return found[0]
+
+    if k == "c>":
+        o = note(e[1])
+        part.remove(o, "end")
+        part.add(o, None, e[2])
+        return 2
+    if k == "c|":
+        a, b = note(e[1]), note(e[2])
+        part.remove(a, "end")
+        part.add(a, None, e[3])
+        part.remove(b, "start")
+        part.add(b, e[3], None)
+        return 4
+    if k == "c-":
+        o = note(e[1])
+        o.tie_prev.tie_next = None
+        o.tie_prev = None
+        part.remove(o)
+        return 2
+    if k == "c/":
+        a = note(e[1])
+        a.tie_next.tie_prev = None
+        a.tie_next = None
+        return 1
+    if k == "c+":
+        a = note(e[1])
+        new = S.Note(a.step, a.octave, a.alter, id=e[2], voice=3, staff=3)
+        part.add(new, a.end.t, e[3])
+        a.tie_next = new
+        new.tie_prev = a
+        return 2
+    if k == "c~":
+        a, b = note(e[1]), note(e[2])
+        a.tie_next = b
+        b.tie_prev = a
+        return 1
+    if k == "x*":
+        m = e[1]
+        objs = [(o, o.start.t, None if o.end is None else o.end.t) for o in part.iter_all(S.TimedObject, include_subclasses=True)]
+        (q,) = [int(x) for x in part._quarter_durations]
+        for o, _s, _e in objs:
+            part.remove(o)
+        part.set_quarter_duration(0, q * m)
+        for o, s_, e_ in objs:
+            part.add(o, s_ * m, None if e_ is None else e_ * m)
+        return 2 * len(objs) + 1
     raise ValueError(e)
 
 
@@ -228,6 +330,101 @@ def enumerate_edits(spec, grid, step):
     return [e for e in out if valid(apply_edit_spec(spec, e))]
 
 
+def _chains(objs):
+    by_id = {o["id"]: o for o in objs if o["k"] in ("note", "grace")}
+    has_prev = {o["tie"] for o in by_id.values() if o.get("tie") is not None}
+    out = []
+    for o in objs:
+        if o["k"] not in ("note", "grace") or o["id"] in has_prev:
+            continue
+        ch = [o]
+        while ch[-1].get("tie") is not None:
+            ch.append(by_id[ch[-1]["tie"]])
+        out.append(ch)
+    return out
+
+
+def _spelled(o):
+    return (o["step"], o.get("alter") or 0, o["oct"])
+
+
+def enumerate_tie_edits(spec, grid, step):
+    """all edits of the tie alphabet that apply to `spec` on the time grid `grid` (sorted times, the last one is the
+    end of the part); deterministic order.  Times: the grid points and the times one division before / after the
+    present value."""
+    objs = spec["objs"]
+    chains = _chains(objs)
+    end = grid[-1]
+    out = []
+    for ch in chains:
+        if len(ch) < 2:
+            continue
+        tail = ch[-1]
+        for t in sorted(set(grid) | {tail["e"] - 1, tail["e"] + 1}):
+            if tail["s"] < t <= end and t != tail["e"]:
+                out.append(["c>", tail["id"], t])
+        for a, b in zip(ch, ch[1:]):
+            for t in sorted(set(grid) | {a["e"] - 1, a["e"] + 1}):
+                if a["s"] < t < b["e"] and t != a["e"]:
+                    out.append(["c|", a["id"], b["id"], t])
+        out.append(["c-", tail["id"]])
+        for a in ch[:-1]:
+            out.append(["c/", a["id"]])
+    # tie a new note onto every chain and onto the first untied note: up to the next grid point and up to the end
+    new = "y%d" % step
+    first_single = True
+    for ch in chains:
+        tail = ch[-1]
+        if tail["k"] != "note" or tail["e"] >= end:
+            continue
+        if len(ch) == 1:
+            if not first_single:
+                continue
+            first_single = False
+        later = [t for t in grid if t > tail["e"]]
+        for t in sorted({later[0], later[-1]}):
+            out.append(["c+", tail["id"], new, t])
+    # tie two notes that are there already (chain tail or untied note -> chain head or untied note)
+    for ca in chains:
+        a = ca[-1]
+        for cb in chains:
+            b = cb[0]
+            if ca is not cb and a["k"] == "note" and b["k"] == "note" and a["e"] == b["s"] and _spelled(a) == _spelled(b):
+                out.append(["c~", a["id"], b["id"]])
+    if len(spec["divs"]) == 1:
+        for m in Q_MULT:
+            out.append(["x*", m])
+        for m in Q_MULT:
+            out.append(["q=", spec["divs"][0][1] * m])
+    return [e for e in out if valid(apply_edit_spec(spec, e))]
+
+
+def content_deco(frame, content, events):
+    """explicit pitches / voices / staves of a content, None = the default assignment of mc/c05_gen.py"""
+    if content != "ties":
+        return None
+    by = {"A": dict(p=0, v=1, st=1), "B": dict(p=4, v=2, st=2), "C": dict(p=2, v=None, st=None),
+          "r": dict(p=0, v=1, st=1), "g": dict(p=1, v=1, st=1, gt="acciaccatura")}
+    return [dict(by[tag]) for tag in _ties_layout(frame)[1]]
+
+
+def _ties_layout(frame):
+    n = len(frame["grid"])
+    k = min(3, n - 1)
+    ev, tags = [["t", 0, k]], ["A"]
+    if k + 1 <= n - 1:
+        ev.append(["n", k, k + 1])  # same pitch and voice as the chain before it
+        tags.append("A")
+    ev += [["n", 0, 1], ["n", 1, 2]]  # two adjacent notes of one pitch
+    tags += ["B", "B"]
+    if n >= 5:
+        ev.append(["t", n - 3, n - 1])  # a chain that ends with the part
+        tags.append("C")
+    ev += [["r", n - 2, n - 1], ["g", 1, 1]]
+    tags += ["r", "g"]
+    return ev, tags
+
+
 def content_events(frame, content):
     """the two contents of the edit spaces.  dense: a one-cell note and a one-cell rest on every grid
     cell (every grid point is a time point and carries an onset); sparse: a tie chain, a grace note,
@@ -237,4 +434,8 @@ def content_events(frame, content):
         return [["n", i, i + 1] for i in range(n - 1)] + [["r", i, i + 1] for i in range(n - 1)]
     if content == "sparse":
         return [["t", 0, 2], ["g", 1, 1], ["r", n - 2, n - 1], ["n", n - 2, n - 1]]
+    if content == "ties":
+        # a chain of 2-3 members from the start, a note of its pitch right after it, two adjacent untied notes of one
+        # pitch, a chain that ends with the part, a rest and a grace note
+        return _ties_layout(frame)[0]
     raise ValueError(content)
